@@ -241,3 +241,8 @@ def run(ctx):
         check_name_writer(cfg, crate, rep)
         if cfg in ("K1", "K2"):
             check_import(cfg, crate, rep)
+            # the key identifier of a certificate issued for a parsed SubjectPublicKeyInfo is the hash of the SPKI that
+            # is *re-serialised from the recognised algorithm*: recognising the complete identifier (OID and
+            # parameters, i.e. the curve) is a necessary condition of SKI(issuer cert) == AKI(child)
+            import c11
+            common.borrow_rules(rep, lambda: c11.check_spki(cfg, crate, rep), "C11.", "C03.spki")
